@@ -11,6 +11,8 @@
 (* shared      objects (by identity) reachable from two different results  *)
 (* reclaimed   per call: everything created for it was garbage after the   *)
 (*             caller dropped the result                                   *)
+(* live        per call of a sequential history: number of parser and      *)
+(*             blueprint objects alive right after the call ended          *)
 (***************************************************************************)
 EXTENDS Diff, Json, IOUtils
 
@@ -24,6 +26,10 @@ Verdict(e) ==
   ELSE IF \E i \in DOMAIN e.fps : e.fps[i] # e.fps[1] THEN "the shared grammar objects changed during a parse"
   ELSE IF e.shared # <<>> THEN "results share a mutable object: " \o e.shared[1]
   ELSE IF \E i \in DOMAIN e.reclaimed : ~e.reclaimed[i] THEN "objects of a dropped parse are still reachable from the library"
+  \* once a call has returned or failed, its parser and blueprints are garbage (counted after every call of a sequential history)
+  ELSE IF \E i \in DOMAIN e.live : e.live[i] # 0
+       THEN "after parse call " \o ToString(CHOOSE i \in DOMAIN e.live : e.live[i] # 0 /\ \A j \in 1..(i - 1) : e.live[j] = 0)
+            \o " returned or failed, parser or blueprint objects created for it are still alive"
   ELSE ""
 
 VARIABLE ti
